@@ -204,6 +204,7 @@ def run(ctx):
         try:
             obj = S.Slice(a, b, c)
             for n in lens:
+                g = obj.gen_indices(n); next(g, None)             # abandoned generator
                 want = list(range(n))[a:b:c]
                 pick = rng.randrange(5)       # vary which report is asked first on this length
                 first = [obj.count, obj.first, obj.step, lambda m: list(obj.gen_indices(m)), obj.long_str][pick](n)
@@ -217,8 +218,21 @@ def run(ctx):
         sN = rng.randint(1, 30)
         try:
             smp = S.Sample(sN)
-            for n in lens:
+            # generators that are abandoned half way, or run side by side, must not disturb later answers
+            n0 = rng.randint(0, 45)
+            g1, g2 = smp.gen_indices(n0), smp.gen_indices(n0)
+            for _k in range(rng.randint(0, 4)):
+                next(g1, None)
+                if rng.random() < 0.5:
+                    next(g2, None)
+            rest = list(g2)
+            for n in [n0] + lens:
                 idx = smp.indices(n)
+                fresh = S.Sample(sN).indices(n)
+                if idx != fresh:
+                    ctx.fail({'op': 'sample_reuse', 'N': sN, 'lens': [n0] + lens},
+                             f'a Sample object with a history (abandoned generators, other lengths) selects {idx[:8]} at n={n}, a fresh Sample({sN}) selects {fresh[:8]}')
+                    break
                 if len(idx) != min(sN, n) or smp.count(n) != len(idx) or list(smp.gen_indices(n)) != idx or (idx and idx[0] != 0) or any(y <= x for x, y in zip(idx, idx[1:])):
                     ctx.fail({'op': 'sample_reuse', 'N': sN, 'lens': lens}, f'one Sample object reused on lengths {lens}: at n={n} got {idx[:8]}')
                     break
@@ -295,8 +309,12 @@ def replay(ctx, rec):
         return True, 'object reuse gives Python slicing on every length'
     elif case.get('op') == 'sample_reuse':
         smp = S.Sample(case['N'])
+        import itertools as _it
         for n in case['lens']:
+            list(_it.islice(smp.gen_indices(n), 2))      # an abandoned generator must not matter
             idx = smp.indices(n)
+            if idx != S.Sample(case['N']).indices(n):
+                return False, f'at n={n}: object with a history selects {idx[:8]}, a fresh one {S.Sample(case["N"]).indices(n)[:8]}'
             if len(idx) != min(case['N'], n) or smp.count(n) != len(idx):
                 return False, f'at n={n}: {idx[:8]}'
         return True, 'object reuse ok'
